@@ -87,6 +87,15 @@ fn header_ok(e: &[u8]) -> bool {
 }
 
 // ---------------------------------------------------------------- one case
+/// Gallina byte-string literal: printable ASCII as text (half the size of hex,
+/// and the case files are dominated by literal parsing), anything else as hex
+fn gb(b: &[u8]) -> String {
+    if !b.is_empty() && b.iter().all(|&c| (32..127).contains(&c)) {
+        format!("(s2b \"{}\")", String::from_utf8_lossy(b).replace('"', "\"\""))
+    } else {
+        g_bytes(b)
+    }
+}
 fn hexf(v: &Value) -> Vec<u8> {
     hex::decode(v.as_str().expect("hex string")).expect("hex")
 }
@@ -201,12 +210,12 @@ pub fn run_input(input: &Value) -> Case {
     };
     let gallina = format!(
         "K01 {} {} {} {} {} {} {} {} {} {} {} {}",
-        g_bytes(&req),
-        g_bytes(&resp),
+        gb(&req),
+        gb(&resp),
         g_bytes(&nonce),
         id,
         g_list(&keys.iter().map(|(i, s)| format!("({}, {})", i, s)).collect::<Vec<_>>()),
-        g_list(&etags.iter().map(|e| g_bytes(e)).collect::<Vec<_>>()),
+        g_list(&etags.iter().map(|e| gb(e)).collect::<Vec<_>>()),
         g_bytes(&sha_req),
         g_bytes(&sha_resp),
         g_list(&[g_pair(&g_bytes(&pre), &g_bytes(&digest))]),
